@@ -88,6 +88,11 @@ CHECKS = {
     technique='TLA+ spec HodStaging.tla: TLC checks, for every arrangement of halo ids over slab files and every flag combination, that the staging algorithm (concatenate, sortedness test, one permutation applied to a set of arrays) leaves every per-halo array aligned; arrangements replayed through the real AbacusHOD constructor on synthetic HDF5 slabs',
     text='TLC enumerates every ordering of <=4 (quick) / 5 (thorough) distinct ids cut into <=3 slab files x flags and proves Aligned / IdsIncreasing for the staging algorithm with the current list of permuted arrays (the original list is rejected as control). Each arrangement (a spread subset in the quick tier) is written as HDF5 subsample slabs + header; AbacusHOD is constructed with rotating flags (assembly bias, shear, ranks, exponential velocities) and with two chunks; every array of halo_data (13 arrays) is decoded to the halo id it describes and compared with hid row by row; particle host indices, host attributes and ranks are checked.',
     note='Synthetic HDF5/ASDF inputs; attributes are injective functions of the id.'),
+ 'C11': dict(
+    design='DESIGN.md §5 C11',
+    technique='TLA+ spec MemSafety.tla plus the InBounds invariants of the per-subsystem modules, checked by TLC at boundary constants; every boundary instantiation executed on the real kernels with bounds checking (NUMBA_BOUNDSCHECK=1 / interpreted) and in guarded arenas',
+    text='TLC checks the index expressions of the _tsc_parallel pass loops, linear_interp (quotient rounding up at a knot) and getPointsOnSphere for all small sizes (the original expressions are flagged as controls) and re-runs the InBounds invariants of Cumsum, Partition, TwoPass, CatalogIndex (zipper), MassAssign and ModeBinning at boundary constants. 155 boundary instantiations of 30+ kernels (empty arrays, single elements, zero-particle halos, empty superslabs, 2-D CIC grid, positions on the domain boundaries and at BoxSize, offsets of half a cell, edges beyond Nyquist, pimax below the mesh, lookups one ulp inside the last knot, fewer items than threads, odd stripe counts) are executed compiled with NUMBA_BOUNDSCHECK=1 (serial kernels) or interpreted with numpy bounds checks (parallel kernels), and compiled as shipped inside guarded arenas; any bounds fault or touched guard is a violation.',
+    note='Interpreted execution stands in for compiled parallel kernels (same source). Documented domains as listed in the evidence assumptions; gen_sats_nfw/compute_fast_NFW not exercised in the quick tier.'),
 }
 NA = [
  dict(property_id='C18', reason='Pure real-valued geometry (square roots, sines, cross products) on a fixed finite domain of 65 340 codes: no state, order, schedule or index structure for a TLA+ transition system, and orthonormality/coverage are floating-point facts outside TLC integer arithmetic; an exhaustive numeric sweep would be a different technique (DESIGN.md §7).'),
